@@ -3,6 +3,8 @@ package main
 import (
 	"fmt"
 	"math/rand"
+	"os"
+	"time"
 	"regexp"
 	"strconv"
 	"strings"
@@ -12,7 +14,12 @@ import (
 // C10 (CDP strictness), C11 (precision), C16 (signature policy uniform). One history runner, per-property oracles.
 
 func init() {
-	register("C01", func(r *Run) { runRepoProps(r, "C01") })
+	register("C01", func(r *Run) {
+		runRepoProps(r, "C01")
+		r.rule += "; whole-validator stream: mode x OCSP scenario (none, good, unknown, revoked, unavailable, cached) x CRL source (CDP, crl_urls, crl_files) x list " +
+			"size x position x encoding x serial width x entry extensions x backend, verdict compared with the regenerated statement list of VerifyClientCertificate"
+		c01Validator(r)
+	})
 	register("C08", func(r *Run) { runRepoProps(r, "C08") })
 	register("C10", func(r *Run) { runRepoProps(r, "C10") })
 	register("C11", func(r *Run) { runRepoProps(r, "C11") })
@@ -140,6 +147,18 @@ func runRepoProps(r *Run, focus string) {
 	parallel(len(jobs), 24, func(i int) {
 		j := jobs[i]
 		var ops, obs []string
+		if os.Getenv("VERIF_TIMING") != "" {
+			t0 := time.Now()
+			defer func() {
+				downs := 0
+				for _, o := range j.ops {
+					if o.Served == "down" {
+						downs++
+					}
+				}
+				fmt.Fprintf(os.Stdout, "TIMING history %d: %d ops, %d down, %.1fs cfg=%+v\n", i, len(j.ops), downs, time.Since(t0).Seconds(), j.cfg)
+			}()
+		}
 		steps, w, err := runRepoHistory(r, j.cfg, j.ops, j.pem, func(o, ob string) { ops = append(ops, o); obs = append(obs, ob) })
 		if err != nil {
 			r.Violate(focus+" provision-failed", err.Error(), j.cfg)
@@ -165,6 +184,7 @@ func repoOracles(r *Run, focus string, idx int, cfg repoCfg, steps []repoStep, w
 		}
 	}
 	served := map[int]repoOp{}
+	createdWith := map[int][]int{} // loc -> candidates presented by the handshake that made the location known
 	viol := func(prop, sig, detail string) {
 		if prop == focus {
 			r.Violate(prop+" "+sig, fmt.Sprintf("cfg=%+v history#%d: %s | trace: %s", cfg, idx, detail, strings.Join(trace, " ; ")),
@@ -217,6 +237,29 @@ func repoOracles(r *Run, focus string, idx int, cfg repoCfg, steps []repoStep, w
 						viol("C16", "verify-accepted-unverifiable sig=verify", fmt.Sprintf("loc %d: CRL #%d signed by %d came into force under 'verify' although that signer was never available", loc, e.num, d.Signer))
 						viol("C04", "unentitled-signer-accepted", fmt.Sprintf("loc %d: CRL #%d signed by %d in force under verify", loc, e.num, d.Signer))
 					}
+				}
+			}
+		}
+		// --- a location that is known but not loaded: the next run must bring an acceptable document into force (C08/C16) ---
+		for loc := range cur {
+			if _, had := prev[loc]; !had {
+				createdWith[loc] = nil
+				if o.Kind == "hs" && o.CDP == loc {
+					createdWith[loc] = append([]int{}, o.Cands...)
+				}
+			}
+		}
+		if o.Kind == "tick" && ok {
+			for loc, p := range prev {
+				e, still := cur[loc]
+				sv, has := served[loc]
+				if p.loaded || p.closed || !still || e.closed || !has || sv.Served != "doc" {
+					continue
+				}
+				acceptable := cfg.Sig != "verify" || (sv.Doc.Signer != 9 && containsInt(createdWith[loc], sv.Doc.Signer))
+				if acceptable && !(e.loaded && e.num == sv.Doc.Number) {
+					viol("C08", "later-load-not-installed", fmt.Sprintf("loc %d: known but not loaded, an acceptable CRL #%d is served, the run left it unloaded (loaded=%v number=%d)", loc, sv.Doc.Number, e.loaded, e.num))
+					viol("C16", "acceptable-crl-not-loaded sig="+cfg.Sig, fmt.Sprintf("loc %d: acceptable CRL #%d not loaded by the run", loc, sv.Doc.Number))
 				}
 			}
 		}
